@@ -61,6 +61,12 @@ func (a AttrSpec) Tag() uint32 {
 			return a.ASPath[i].ASNs[n-1]
 		}
 	}
+	// an announcement without an AS_PATH carries its tag in a large community (see CanonPath.Tag)
+	for _, l := range a.LargeComms {
+		if l.G == tagCommunityAdmin {
+			return l.L2
+		}
+	}
 	return 0
 }
 
